@@ -8,3 +8,22 @@ NOT_COVERED = ['float64 rounding']
 ALWAYS_SEARCH = True          # the law sweep on the real code is cheap: run it in every tier (exploration, not proof)
 search = search_with("c10")
 correspondence = sym_correspondence(['rotateX', 'rotateY', 'rotateZ', 'rotate_axis', 'rotate_euler', 'rotate_nautical', 'rotate_quaternion'], 'c10')
+
+
+_base_corr = correspondence
+
+
+def correspondence(ctx):
+    """+ keyword call = positional call in the documented order for every rotate* method (object, NumPy, Awkward)"""
+    from harness import backends, c05
+    out = _base_corr(ctx)
+    kbad, kst = backends.keyword_lattice(ctx)
+    out["stats"].update(kst)
+    seen = set()
+    for a_, b_, k_ in kbad:
+        if k_.split(":")[-1].startswith("rotate") and k_ not in seen:
+            seen.add(k_)
+            out["disagreements"].append(f"signature: {a_} :: {b_}"[:300])
+            out["failing_inputs"].append({"key": k_, "what": f"{a_}: {b_}"[:400], "code": c05.keyword_replay(ctx.seed, ctx.tier, k_)})
+    out["ok"] = out["ok"] and not seen
+    return out
